@@ -284,6 +284,23 @@ func (doc *Document) nonIndividuals() Nodes {
 
 func (doc *Document) SetNodes(nodes Nodes) {
 	doc.nodes = nodes
+	doc.rootNodesChanged()
+}
+
+// rootNodesChanged rebuilds or drops everything that is derived from the root
+// nodes: the pointer index, the list of families and the relations cached by
+// the individuals and families.
+func (doc *Document) rootNodesChanged() {
+	doc.buildPointerCache()
+	doc.families = nil
+
+	for _, individual := range doc.Individuals() {
+		individual.resetCache()
+	}
+
+	for _, family := range doc.Families() {
+		family.resetCache()
+	}
 }
 
 func individuals(doc *Document) IndividualNodes {
@@ -341,19 +358,8 @@ func (doc *Document) AddFamilyWithHusbandAndWife(pointer string, husband, wife *
 func (doc *Document) DeleteNode(node Node) (didDelete bool) {
 	doc.nodes, didDelete = doc.nodes.deleteNode(node)
 
-	// The pointer index, the list of families and the relations cached by the
-	// individuals and families are all derived from the root nodes.
 	if didDelete {
-		doc.buildPointerCache()
-		doc.families = nil
-
-		for _, individual := range doc.Individuals() {
-			individual.resetCache()
-		}
-
-		for _, family := range doc.Families() {
-			family.resetCache()
-		}
+		doc.rootNodesChanged()
 	}
 
 	return
